@@ -96,8 +96,14 @@ static OvScene ovGen(vh::Rng &r, int cls, int maxRects) {
                 if (r.coin(2, 3)) { if (r.coin()) pn.xo = r.coin() ? 0.0 : 1.0; else pn.yo = r.coin() ? 0.0 : 1.0; }   // on a side
                 pn.inside = r.coin(1, 3) ? 0.5 : 0.0;
                 pn.mask = r.coin(1, 3) ? 0u : ovMask(r);                  // 0 = ConnDirNone: derived from the side
-                bool dup = false;                                          // two pins of one shape at one point: skip
-                for (const OvPin &o : s.pins) if (o.rect == pn.rect && o.xo == pn.xo && o.yo == pn.yo) dup = true;
+                // two pins of one shape at one POINT are skipped: they share their VertID (shape id, kShapeConnectionPin),
+                // so std::set<PosVertInf> keeps only one of them on a line where their scan directions agree
+                auto px = [&](const OvPin &o) { const R4 &b = s.rects[o.rect]; double w = b.x1 - b.x0;
+                    return o.xo == 0.0 ? b.x0 + o.inside : (o.xo == 1.0 ? b.x1 - o.inside : b.x0 + o.xo * w); };
+                auto py = [&](const OvPin &o) { const R4 &b = s.rects[o.rect]; double h = b.y1 - b.y0;
+                    return o.yo == 0.0 ? b.y0 + o.inside : (o.yo == 1.0 ? b.y1 - o.inside : b.y0 + o.yo * h); };
+                bool dup = false;
+                for (const OvPin &o : s.pins) if (o.rect == pn.rect && px(o) == px(pn) && py(o) == py(pn)) dup = true;
                 if (!dup) s.pins.push_back(pn);
             }
         }
